@@ -32,13 +32,13 @@ func init() {
 	checks.Register(&checks.Check{
 		ID:        "C08",
 		Level:     "model_checking",
-		Technique: "stateless model checking of the real jrpc2.Client caches (controlled scheduler over instrumented code, simulated node): all interleavings of 2-3 caller threads and the head poller up to a preemption bound, every single injected RPC failure at every exchange; oracle = uncached reference computed from the chain model + counting of reads served without asking the node from the call log and the node's exchange log",
-		Rule: "jobs = max-reads m in {1,2,3} x one program of 1-2 calls per thread (2 threads; 3 threads with 1 call, thorough also 3 threads with 1-2 calls) over {Get(filter A), Get(filter B), Get(no logs), Get(receipts)} on colliding ranges (1,2),(1,2),(2,2),(3,1) of a static 6-block chain (2 txs x 2 logs per block, two addresses x two event signatures; filter A = address X, filter B = topic0 S1, sharing one log and each selecting one the other does not), separately for the header-segment cache and the block-segment cache and once across both; head jobs = programs over {Latest(floor 0|3|4|5|6), announce(head n)+poller tick, announce(head n of a sibling branch forking above block 3: same height, other hash)+tick}, the announcements always polled by the REAL head poller (its reused decode buffer included): one announcement between reads; every ordered pair (quick: over {3,5,6,4',5'}, thorough: {3,4,5,6,4',5',6'}) and some triples of announcements followed by reads, i.e. accepted heads followed by repeats, regressions and same-height replacements the cache must reject; waiter jobs = 3 threads on one segment, one with 2-3 follow-up reads, every single failure at every exchange (a download fails while callers wait on it, then the key is read again); mixed Get+Latest jobs; the sequences of the repository's own sequential cache tests. " +
+		Technique: "stateless model checking of the real jrpc2.Client caches (controlled scheduler over instrumented code, simulated node): all interleavings of 2-3 caller threads and the head poller up to a preemption bound, every single injected RPC failure at every exchange; oracle = exact (no log/tx/receipt field missing, none extra) uncached reference per caller computed from the chain model and cross-checked against the real nocache client + counting of reads served without asking the node from the call log and the node's exchange log",
+		Rule: "jobs = max-reads m in {1,2,3} x one program of 1-2 calls per thread (2 threads; 3 threads with 1 call, thorough also 3 threads with 1-2 calls) over {Get(filter A), Get(filter B), Get(filter C), Get(no logs), Get(receipts)} on colliding ranges (1,2),(1,2),(2,2),(3,1) of a static 6-block chain (2 txs x 2 logs per block, two addresses x two event signatures; filter A = address X, filter B = topic0 S1, sharing one log and each selecting one the other does not; filter C = address Y, disjoint from A), separately for the header-segment cache and the block-segment cache and once across both; filter-sequence jobs = one caller reading the hot range (1,2) 2-3 (thorough: 2-4) times in a row through one caching client, EVERY word over the data plans {A, B, C, no logs} (block cache: + receipts) x max-reads {2,3}, i.e. every order of different filters on one cached segment inside and across the max-reads window (A B, B A, A B A, A C B, receipts then logs, logs then none, ...), every call judged against the uncached reference of ITS OWN plan; two-thread jobs with A/C and B/C on the hot segment; head jobs = programs over {Latest(floor 0|3|4|5|6), announce(head n)+poller tick, announce(head n of a sibling branch forking above block 3: same height, other hash)+tick}, the announcements always polled by the REAL head poller (its reused decode buffer included): one announcement between reads; every ordered pair (quick: over {3,5,6,4',5'}, thorough: {3,4,5,6,4',5',6'}) and some triples of announcements followed by reads, i.e. accepted heads followed by repeats, regressions and same-height replacements the cache must reject; waiter jobs = 3 threads on one segment, one with 2-3 follow-up reads, every single failure at every exchange (a download fails while callers wait on it, then the key is read again); mixed Get+Latest jobs; the sequences of the repository's own sequential cache tests. " +
 			"Per job every schedule with <= 2 preemptions and <= 2 deviations in total (head jobs with announcements: 1; thorough: core jobs 3, the rest 2), all free choices (who runs at call boundaries and when a thread blocks or ends) exhaustively, and on fault jobs additionally every single rpc-error-object / transport-error at every exchange (Get's fetch, logs and receipts exchanges, Latest's own fetch, the poller's poll). An execution is non-trivial when at least one read was served from cache or a fault was injected; distinct = distinct (job, choice sequence).",
 		Assumptions: []string{
 			"simulated node (h/simeth) answers like a well-behaved geth; see DESIGN.md §7",
 			"interleavings are at synchronisation-point granularity (mutex, once, channel, spawn, RPC exchange); unsynchronised memory accesses are C18's subject",
-			"extra correct logs/txs on a returned block beyond the caller's filter are not judged (row-level isolation is C04); a matching log missing, a wrong log, or a log index twice within a tx is",
+			"the uncached reference of a call is computed from the chain model and the call's own data plan and is exact in both directions: a filter-matching log missing, a wrong log, a log index twice within a tx, AND anything an uncached client would not return (a log that does not match the caller's filter, any log on a plan without logs, a tx without a log of the caller's plan on a header plan, receipt fields on a plan without receipts) are all flagged; the real nocache client run over every data plan of the alphabet agrees with this reference (self-test sequences, counted)",
 			"bounded reuse counts reads served without asking the node between two consecutive successful node fetches of the same segment key (head: per announced pair); the read that performs the fetch is not counted (the reading under which the repo's TestCache_MaxReads and TestLatest_Cached hold); a concurrent cached read is charged to the most favourable window its call interval touches",
 			"the head part changes only the head (prefixes of one fixed chain, or of a sibling branch that differs only above block 3); the contents of the blocks Get requests (1..3) never change",
 		},
@@ -58,6 +58,7 @@ func alphabet(fam string) map[byte]string {
 		'a': "G:" + fam + "lA:1:2", // filter A on the hot range
 		'b': "G:" + fam + "lB:1:2", // filter B on the hot range (same segment as a)
 		'p': "G:" + fam + ":1:2",   // no logs, hot range
+		'y': "G:" + fam + "lC:1:2", // filter C (the other address) on the hot range
 		'c': "G:" + fam + "lA:2:2", // overlapping blocks, another segment
 		'd': "G:" + fam + "lB:3:1", // single block
 		'e': "G:" + fam + "lA:3:1", // same segment as d, filter A
@@ -217,13 +218,50 @@ func waiterJobs(thorough bool) []job {
 	return out
 }
 
+// filterSeqJobs: ONE caller thread reads the hot range (1,2) two, three (thorough: four) times in a
+// row through one caching client, every word over the data plans {filter A (address X), filter B
+// (topic0 S1), filter C (address Y), no logs[, receipts]} — i.e. every order of different filters on
+// the same segment (A B, B A, A B A, A C B, receipts then logs, logs then none, …) — for every
+// max-reads setting under which at least one of the reads is served from the segment another plan
+// downloaded (m=2: fetch, cached, fetch, cached; m=3: fetch, cached, cached, fetch). One schedule
+// each; every call is compared with the uncached reference FOR ITS OWN plan. skip = jobs that are
+// already in the list (the repository's own sequences).
+func filterSeqJobs(thorough bool, skip map[string]bool) []job {
+	var out []job
+	maxLen := 3
+	if thorough {
+		maxLen = 4
+	}
+	for _, fam := range []string{"h", "b"} {
+		alpha := "abyp"
+		if fam == "b" {
+			alpha += "r"
+		}
+		for n := 2; n <= maxLen; n++ {
+			for _, w := range words(alpha, n) {
+				for _, m := range []int{2, 3} {
+					j := segJob(fam, m, []string{w}, false)
+					if !skip[j.String()] {
+						out = append(out, j)
+					}
+				}
+			}
+		}
+	}
+	return out
+}
+
 func c08Jobs(thorough bool) []job {
 	var jobs []job
 	add := func(js ...job) { jobs = append(jobs, js...) }
 	// the sequences of the repository's own sequential tests (one thread: one schedule each)
+	skip := map[string]bool{}
 	for _, s := range selfSeqs() {
 		add(s.j)
+		skip[s.j.String()] = true
 	}
+	// different filters on the same range, one after the other, in every order
+	add(filterSeqJobs(thorough, skip)...)
 	fams := []string{"h", "b"}
 	if !thorough {
 		for _, fam := range fams {
@@ -236,6 +274,10 @@ func c08Jobs(thorough bool) []job {
 			add(segJobs(fam, "ab|ba", true, 0, 2)...)
 			add(segJobs(fam, "ap|pa", true, 0, 1)...)
 		}
+		// … and concurrently: the other-address filter C against A (disjoint) and B (one shared log)
+		add(segJobs("h", "ay|ya", false, 0, 2)...)
+		add(segJobs("b", "ay|ya", false, 0, 2)...)
+		add(segJobs("b", "yb|ay", false, 0, 3)...)
 		add(waiterJobs(false)...)
 		add(segJobs("h", "ab|ba", false, 0, 3)...)
 		add(segJobs("h", "ab|ab", false, 0, 1)...)
@@ -292,6 +334,9 @@ func c08Jobs(thorough bool) []job {
 		}
 		for _, sp := range []string{"ac|ba", "ad|eb", "de|ed", "ca|ac"} {
 			add(segJobs(fam, sp, false, 2, 1, 2)...)
+		}
+		for _, sp := range []string{"ay|ya", "ay|ay", "yb|by", "yb|ay", "yp|pa"} {
+			add(segJobs(fam, sp, false, 2, 2, 3)...)
 		}
 	}
 	for _, sp := range []string{"ar|ba", "rb|ar", "ra|pr", "rr|ab"} {
@@ -448,8 +493,8 @@ func c08Run(c *fw.Ctx) {
 		jobs = []job{one}
 	}
 	c.Bound("jobs", len(jobs))
-	c.Bound("threads", "2-3")
-	c.Bound("calls_per_thread", "1-2 (+ head announcements)")
+	c.Bound("threads", "2-3 (filter-sequence jobs and the repository's sequences: 1)")
+	c.Bound("calls_per_thread", "1-2 (+ head announcements); filter-sequence jobs: 2-3 (thorough 2-4) on one thread")
 	c.Bound("maxreads", []int{1, 2, 3})
 	c.Bound("preemptions", c08Bounds(c.Thorough(), job{})[vrt.KPreempt])
 	c.Bound("deviations_total", c08Bounds(c.Thorough(), job{})[0])
@@ -484,6 +529,7 @@ func c08Run(c *fw.Ctx) {
 			c.Count("segment_fetches", int64(s.Fetches))
 			c.Count("segment_fetches_failed", int64(s.FailedFetches))
 			c.Count("segment_cache_hits", int64(s.CachedReads))
+			c.Count("segment_cache_hits_after_download_by_another_filter", int64(s.CrossFilterHits))
 			c.Count("head_asks", int64(s.HeadAsks))
 			c.Count("head_asks_by_poller", int64(s.HeadAsksPoller))
 			c.Count("head_asks_failed", int64(s.FailedAsks))
@@ -621,6 +667,12 @@ func selfSeqs() []selfSeq {
 		{job{M: 2, Threads: [][]string{{"G:blA:1:2", "G:blB:1:2", "G:blA:1:2"}}}, "FCF"},
 		{job{M: 1, Threads: [][]string{{"G:h:3:1", "G:h:3:1"}}}, "FF"},
 		{job{M: 3, Threads: [][]string{{"G:hlA:1:2", "G:hlB:1:2", "G:h:1:2", "G:hlA:1:2"}}}, "FCCF"},
+		// the UNCACHED client ("nocache" url option) on every data plan of the alphabet: every call asks
+		// the node, and its answer is exactly the reference compareGet computes from the chain model
+		// (this is what makes "differs from the reference" mean "differs from an uncached client")
+		{job{M: 2, NoCache: true, Threads: [][]string{{"G:hlA:1:2", "G:hlB:1:2", "G:hlC:1:2", "G:h:1:2", "G:hlA:1:2"}}}, "FFFFF"},
+		{job{M: 2, NoCache: true, Threads: [][]string{{"G:blA:1:2", "G:blB:1:2", "G:blC:1:2", "G:b:1:2", "G:br:1:2", "G:blA:1:2"}}}, "FFFFFF"},
+		{job{M: 3, NoCache: true, Threads: [][]string{{"G:hlB:3:1", "G:hlA:3:1", "G:blA:2:2", "G:br:1:2", "G:blC:1:2"}}}, "FFFFF"},
 		// TestLatest_Cached: maxreads=1 → ask, cached (floor below head), ask (floor == head, cache expired)
 		{job{M: 1, Init: 4, Threads: [][]string{{"L:0", "L:3", "L:4"}}}, "FCF"},
 		{job{M: 2, Init: 4, Threads: [][]string{{"L:0", "L:3", "L:3", "L:3"}}}, "FCCF"},
